@@ -71,9 +71,9 @@ func verifRequireLock(lock *sync.RWMutex, write bool, what string) {
 		return
 	}
 	if write {
-		vnd.Assert(st == 2, what+" called without holding the write lock")
+		vnd.Assert(st == 2, "lock discipline: "+what+" called without holding the write lock")
 	} else {
-		vnd.Assert(st >= 1, what+" called without holding the lock")
+		vnd.Assert(st >= 1, "lock discipline: "+what+" called without holding the lock")
 	}
 }
 
@@ -704,7 +704,9 @@ func verifScenarioHierTouch(findMissing bool) {
 	}
 	vnd.Cover("touched")
 	// T2: the least specific lookup entry that answers now points outside the old blocks
+	lock.RLock()
 	_, loc, err := ba.getLeastSpecificLookupEntry(getAllLookupKeys(verifHierDigest))
+	lock.RUnlock()
 	klm.gets = 0
 	vnd.Assert(err == nil, "object reported present/readable but no lookup entry answers")
 	vnd.Assert(loc.BlockIndex >= lbm.oldLimit, "after a successful touch the answering lookup entry still points into an old block")
